@@ -298,6 +298,7 @@ func init() {
 			{Name: "script", Count: countFn(400, 20000), Run: c16Script},
 			{Name: "eval", Count: countFn(300, 15000), Run: c16Eval},
 		},
+		Sanitize: []string{"script"},
 		Floors: []core.Floor{{Key: "file_runs", Quick: 400, Thor: 20000}, {Key: "repl_runs", Quick: 400, Thor: 20000}, {Key: "eval_runs", Quick: 400, Thor: 20000}, {Key: "tag:script:", Quick: 4, Thor: 4}},
 	})
 	core.CaseSeconds["C16/script"] = 1
